@@ -97,6 +97,31 @@ CHECKS = {
         design_ref="DESIGN.md 4 C14",
         note="Trusted: TLC/SANY/Json; float32 exact on small integers; the vmap half is sampling with a tolerance.",
     ),
+    "C15": dict(
+        engine="tlc+replay",
+        technique="TLA+ windowing spec (declarative index formula vs operational sliding cursor, slot layout) model-checked over all bounded (T,p,f,dt,s); window tables replayed on position-encoding tokens into time_series_idxs / times_series_to_multi_images / batch_time_series",
+        category="model_checking",
+        text=("For every (T,p,f,dt,s) in the bounds with a window TLC checks that the declarative formula equals the operational "
+              "cursor machine, the count T-s-(p+f-1)dt, range, per-channel time order, causality (every input time < every target "
+              "time), contiguity and that no window exists when none fits. The emitted tables and slot layouts are compared entry "
+              "by entry with the real functions on tokens encoding (type, channel, time, trajectory, pixel, component), with several "
+              "channels per type, constants of present and absent types (inputs only), downsample 0/1, 1-3 trajectories stacked "
+              "trajectory-major."),
+        design_ref="DESIGN.md 4 C15",
+        note="Trusted: TLC/SANY/Json; float32 exact on tokens < 2^24 and 2x2 pooling. Bounds T<=9/10, p,f,dt<=3, s<=2/3.",
+    ),
+    "C16": dict(
+        engine="tlc+replay",
+        technique="TLA+ rollout machine (sliding window per channel, constants in place) with the closed form as TLC invariant on every step; complete rollouts of a history-sensitive integer model replayed into autoregressive_step / autoregressive_map",
+        category="model_checking",
+        text=("TLC checks on every step of every behaviour that the operational window update equals the closed form (last `past` "
+              "frames of initial++predictions), constants untouched and in place, type order unchanged, for every storage order of "
+              "the input and signatures with dynamic+constant, dynamic-only and constant-only types. Each rollout is replayed: "
+              "ml.autoregressive_step after every step (exact, storage order included) and ml.autoregressive_map at the end; the "
+              "model is an integer map with distinct weights per past slot whose Python twin is itself checked against the spec."),
+        design_ref="DESIGN.md 4 C16",
+        note="Trusted: TLC/SANY/Json; model twin (checked at each step against TLC's predictions). n<=3/4 steps, past<=3, 5 signatures.",
+    ),
     "C17": dict(
         engine="tlc+trace",
         technique="TLA+ training-loop machine (TrainLoop!MakeBatches guards) model-checked over all epoch orders; recorded ml.get_batches calls (token data carrying sample indices) and the batches of real ml.train runs validated by the TLC trace spec",
